@@ -58,6 +58,7 @@ type Config struct {
 	Cloner     int    `json:"cloner,omitempty"`   // 0 default(nil), 1 ProtoCloner, 2 CodecCloner, 3 CloneFunc, 4 CopyFunc
 	TUnaryInt  bool   `json:"t_unary_int,omitempty"`
 	TStreamInt bool   `json:"t_stream_int,omitempty"`
+	TIntOnly   string `json:"t_int_only,omitempty"` // if set: only this carrier has the transport-level interceptors
 	BasePath   string `json:"base_path,omitempty"`
 	UseHandle  bool   `json:"use_handle_services,omitempty"` // HandleServices instead of Server
 	TLS        bool   `json:"tls,omitempty"`
